@@ -38,6 +38,7 @@ func (tcScenario) Build(cfg string) ([]func(), func(*vsched.Sched) []string) {
 	tc.SetSleepDuration(D)
 	tc.SetEventCountToAllow(int64(budget))
 	fired := 0
+	nameVars(tc, "tc")
 	if mode == "asleep" {
 		tc.SleepStart(at(100)) // nextOpen = 1100 > every timestamp below
 		if armed {             // its callback may already have fired
